@@ -12,9 +12,14 @@ Open Scope Z_scope.
 Definition caps_ok (s : store) : Prop :=
   0 <= max_atp s /\ 0 <= max_gtp s /\ 0 <= max_nadh s /\ 0 <= max_debt s.
 
-(* the ledger invariant: no overdraft, debt within its limit, interest aside *)
+(* the ledger invariant: no overdraft; debt within its limit, interest aside:
+   the debt exceeds max_debt by at most the interest still outstanding [owed]
+   (charged and not yet retired by a payment), which in turn is at most all the
+   interest ever charged [accrued] *)
 Definition inv (s : store) : Prop :=
-  0 <= atp s /\ 0 <= gtp s /\ 0 <= nadh s /\ 0 <= debt s /\ debt s <= max_debt s + accrued s /\ 0 <= accrued s.
+  0 <= atp s /\ 0 <= gtp s /\ 0 <= nadh s /\ 0 <= debt s /\
+  debt s <= max_debt s + owed s /\ 0 <= owed s /\ owed s <= accrued s /\
+  debt s <= max_debt s + accrued s.
 
 Definition good (s : store) : Prop := caps_ok s /\ inv s.
 
@@ -37,7 +42,7 @@ Definition cfg_ok (c : config) : Prop :=
 
 (* what a store can still pay: balances plus remaining debt room (interest aside) *)
 Definition spendable (s : store) : Z :=
-  atp s + gtp s + nadh s + max_debt s + accrued s - debt s.
+  atp s + gtp s + nadh s + max_debt s + owed s - debt s.
 
 (* nothing flows into store [i]: no regenerate, no reset, no transfer to it *)
 Definition no_inflow (i : nat) (o : op) : Prop :=
@@ -57,8 +62,8 @@ Definition same_config (s s' : store) : Prop :=
 (* automation                                                               *)
 
 Ltac red_model :=
-  cbn [atp gtp nadh max_atp max_gtp max_nadh debt max_debt total_consumed mst rate_n rate_d accrued
-       set_atp set_gtp set_nadh set_debt set_total set_mst set_accrued bal cap set_bal
+  cbn [atp gtp nadh max_atp max_gtp max_nadh debt max_debt total_consumed mst rate_n rate_d accrued owed
+       set_atp set_gtp set_nadh set_debt set_total set_mst set_accrued set_owed bal cap set_bal
        is_atp is_nadh networth fst snd andb orb negb] in *.
 
 Ltac brk :=
@@ -96,7 +101,7 @@ Lemma consume_exact :
      total_consumed s' = total_consumed s /\ nadh s' <= nadh s /\
      atp s' - atp s = nadh s - nadh s').
 Proof.
-  intros s cost t allow prio. destruct s as [a g n ma mg mn d md tc m rn rd ac], t; unf; brk; red_model;
+  intros s cost t allow prio. destruct s as [a g n ma mg mn d md tc m rn rd ac ow], t; unf; brk; red_model;
     first [ left; repeat split; (reflexivity || lia) | right; repeat split; (reflexivity || lia) ].
 Qed.
 
@@ -104,18 +109,32 @@ Lemma consume_good :
   forall s cost t allow prio,
     good s -> 0 <= cost -> good (fst (consume' s cost t allow prio)).
 Proof.
-  intros s cost t allow prio. destruct s as [a g n ma mg mn d md tc m rn rd ac], t; unf; brk; red_model; intros; lia.
+  intros s cost t allow prio. destruct s as [a g n ma mg mn d md tc m rn rd ac ow], t; unf; brk; red_model; intros; lia.
 Qed.
 
 Lemma consume_config :
   forall s cost t allow prio, same_config s (fst (consume' s cost t allow prio)) /\
-    accrued (fst (consume' s cost t allow prio)) = accrued s.
+    accrued (fst (consume' s cost t allow prio)) = accrued s /\
+    owed (fst (consume' s cost t allow prio)) = owed s.
 Proof.
-  intros s cost t allow prio. destruct s as [a g n ma mg mn d md tc m rn rd ac], t; unf; brk; red_model; repeat split; reflexivity.
+  intros s cost t allow prio. destruct s as [a g n ma mg mn d md tc m rn rd ac ow], t; unf; brk; red_model; repeat split; reflexivity.
+Qed.
+
+(* the code only borrows within the limit: a consume changes the debt only by
+   raising it, only when it reports success, and then the new debt is <= max_debt *)
+Lemma consume_borrow :
+  forall s cost t allow prio,
+    let s' := fst (consume' s cost t allow prio) in
+    debt s' = debt s \/
+    (snd (consume' s cost t allow prio) = RBool true /\ debt s < max_debt s /\ debt s' <= max_debt s /\
+     debt s < debt s' /\ bal s' t = 0).
+Proof.
+  intros s cost t allow prio. destruct s as [a g n ma mg mn d md tc m rn rd ac ow], t; unf; brk; red_model;
+    first [ left; reflexivity | right; repeat split; try reflexivity; lia ].
 Qed.
 
 
-Lemma spendable_networth : forall s, spendable s = networth s + max_debt s + accrued s.
+Lemma spendable_networth : forall s, spendable s = networth s + max_debt s + owed s.
 Proof. intros. unfold spendable, networth. lia. Qed.
 
 Definition charge_of (o : sop) (r : ret) : Z :=
@@ -127,7 +146,7 @@ Lemma consume_spendable :
     spendable s - charge_of (Consume cost t allow prio) (snd (consume' s cost t allow prio)).
 Proof.
   intros. rewrite !spendable_networth.
-  destruct (consume_config s cost t allow prio) as [(_ & _ & _ & Hmd & _) Hac].
+  destruct (consume_config s cost t allow prio) as [(_ & _ & _ & Hmd & _) [_ Hac]].
   rewrite Hmd, Hac. unfold charge_of.
   destruct (consume_exact s cost t allow prio) as [(Hr & Hn & _) | (Hr & Hn & _)];
     rewrite Hr, Hn; lia.
@@ -146,7 +165,7 @@ Qed.
 Lemma regenerate_good :
   forall s amount t, good s -> 0 <= amount -> good (fst (regenerate' s amount t)).
 Proof.
-  intros s amount t. destruct s as [a g n ma mg mn d md tc m rn rd ac], t; unf; brk; red_model; intros; lia.
+  intros s amount t. destruct s as [a g n ma mg mn d md tc m rn rd ac ow], t; unf; brk; red_model; intros; lia.
 Qed.
 
 Lemma regenerate_spec :
@@ -158,7 +177,7 @@ Lemma regenerate_spec :
     same_config s s' /\ accrued s' = accrued s /\
     snd (regenerate' s amount t) = RUnit.
 Proof.
-  intros s amount t. destruct s as [a g n ma mg mn d md tc m rn rd ac], t; unf; brk; red_model;
+  intros s amount t. destruct s as [a g n ma mg mn d md tc m rn rd ac ow], t; unf; brk; red_model;
     (split; [ intros [] | split; [ intros [] Hne; try congruence | ] ]); red_model;
     repeat split; try reflexivity; try lia.
 Qed.
@@ -172,10 +191,10 @@ Lemma withdraw_spec :
     (snd (withdraw s amount t) = true /\ networth s' = networth s - amount /\
      bal s' t = bal s t - amount /\ amount <= bal s t /\
      (forall u, u <> t -> bal s' u = bal s u) /\ debt s' = debt s /\
-     same_config s s' /\ accrued s' = accrued s)
+     same_config s s' /\ owed s' = owed s)
     \/ (snd (withdraw s amount t) = false /\ s' = s).
 Proof.
-  intros s amount t. destruct s as [a g n ma mg mn d md tc m rn rd ac], t; unf; brk; red_model;
+  intros s amount t. destruct s as [a g n ma mg mn d md tc m rn rd ac ow], t; unf; brk; red_model;
     first [ right; split; reflexivity
           | left; repeat split; try reflexivity; try lia; intros [] Hne; try congruence; reflexivity ].
 Qed.
@@ -183,7 +202,7 @@ Qed.
 Lemma withdraw_good :
   forall s amount t, good s -> good (fst (withdraw s amount t)).
 Proof.
-  intros s amount t. destruct s as [a g n ma mg mn d md tc m rn rd ac], t; unf; brk; red_model; intros; lia.
+  intros s amount t. destruct s as [a g n ma mg mn d md tc m rn rd ac ow], t; unf; brk; red_model; intros; lia.
 Qed.
 
 Lemma convert_spec :
@@ -192,7 +211,7 @@ Lemma convert_spec :
     networth s' = networth s /\ spendable s' = spendable s /\ (good s -> good s') /\
     exists z, snd (convert s amount) = RInt z.
 Proof.
-  intros s amount. destruct s as [a g n ma mg mn d md tc m rn rd ac]; unf; brk; red_model;
+  intros s amount. destruct s as [a g n ma mg mn d md tc m rn rd ac ow]; unf; brk; red_model;
     repeat split; try lia; eexists; reflexivity.
 Qed.
 
@@ -203,7 +222,7 @@ Lemma interest_spec :
     (interest_nonneg interest -> good s -> good s') /\
     snd (apply_interest interest s) = RUnit.
 Proof.
-  intros s. destruct s as [a g n ma mg mn d md tc m rn rd ac]; unf; brk; red_model.
+  intros s. destruct s as [a g n ma mg mn d md tc m rn rd ac ow]; unf; brk; red_model.
   - split; [lia|]. do 3 (split; [reflexivity|]). split; [|reflexivity].
     intros Hi Hg. assert (0 <= interest rn rd d) by (apply Hi; lia). lia.
   - split; [lia|]. do 3 (split; [reflexivity|]). split; [|reflexivity]. intros _ Hg. exact Hg.
@@ -212,7 +231,7 @@ Qed.
 Lemma reset_spec :
   forall s, (caps_ok s -> good (fst (reset' s))) /\ snd (reset' s) = RUnit.
 Proof.
-  intros s. destruct s as [a g n ma mg mn d md tc m rn rd ac]; unf; brk; red_model;
+  intros s. destruct s as [a g n ma mg mn d md tc m rn rd ac ow]; unf; brk; red_model;
     split; try reflexivity; intros; lia.
 Qed.
 
@@ -224,8 +243,8 @@ Proof.
   - apply consume_good; assumption.
   - apply regenerate_good; assumption.
   - apply convert_spec; assumption.
-  - destruct s as [a g n ma mg mn d md tc m rn rd ac]; unf; red_model; lia.
-  - destruct s as [a g n ma mg mn d md tc m rn rd ac]; unf; red_model; lia.
+  - destruct s as [a g n ma mg mn d md tc m rn rd ac ow]; unf; red_model; lia.
+  - destruct s as [a g n ma mg mn d md tc m rn rd ac ow]; unf; red_model; lia.
   - apply interest_spec; assumption.
   - apply reset_spec. apply Hg.
 Qed.
@@ -240,8 +259,8 @@ Proof.
   intros s o Ho. destruct o; cbn [sstep is_inflow] in *; try discriminate.
   - apply consume_spendable.
   - destruct (convert_spec s amount) as (_ & H & _ & z & Hz). rewrite Hz. cbn [charge_of]. lia.
-  - destruct s as [a g n ma mg mn d md tc m rn rd ac]; unf; cbn [charge_of snd fst]; red_model; lia.
-  - destruct s as [a g n ma mg mn d md tc m rn rd ac]; unf; cbn [charge_of snd fst]; red_model; lia.
+  - destruct s as [a g n ma mg mn d md tc m rn rd ac ow]; unf; cbn [charge_of snd fst]; red_model; lia.
+  - destruct s as [a g n ma mg mn d md tc m rn rd ac ow]; unf; cbn [charge_of snd fst]; red_model; lia.
   - destruct (interest_spec s) as (H & _ & _ & _ & _ & Hr). rewrite Hr. cbn [charge_of]. lia.
 Qed.
 
@@ -557,6 +576,120 @@ Proof.
   pose proof (paid_le_spent i ops sys Ho). pose proof (spend_bounded Hi i ops sys s Hg Ho Hin Hn). lia.
 Qed.
 
+
+(* ---------------------------------------------------------------------- *)
+(* borrowing stays within the limit                                         *)
+
+Lemma borrow_step_spec :
+  forall sys i s cost t allow prio,
+    nth_error sys i = Some s ->
+    let sys' := fst (step' sys (Local i (Consume cost t allow prio))) in
+    let r := snd (step' sys (Local i (Consume cost t allow prio))) in
+    exists s', nth_error sys' i = Some s' /\ max_debt s' = max_debt s /\
+      (debt s' = debt s \/
+       (r = RBool true /\ debt s < debt s' /\ debt s < max_debt s /\ debt s' <= max_debt s)).
+Proof.
+  intros sys i s cost t allow prio H sys' r.
+  destruct (local_at sys i (Consume cost t allow prio) s H) as (Hn & Hr & _).
+  exists (fst (sstep' s (Consume cost t allow prio))). split; [exact Hn|].
+  subst sys' r. rewrite Hr. cbn [sstep].
+  destruct (consume_config classify s cost t allow prio) as [(_ & _ & _ & Hmd & _) _].
+  split; [exact Hmd|].
+  destruct (consume_borrow classify s cost t allow prio) as [E | (E & H1 & H2 & H3 & _)];
+    [left; exact E | right; repeat split; assumption].
+Qed.
+
+Definition borrow_of (o : sop) (s s' : store) : Z :=
+  match o with Consume _ _ _ _ => debt s' - debt s | _ => 0 end.
+
+(* without inflow the principal (debt minus outstanding interest) moves only by borrowing *)
+Lemma sstep_principal :
+  forall s o, is_inflow o = false ->
+    let s' := fst (sstep' s o) in
+    debt s' - owed s' = debt s - owed s + borrow_of o s s' /\
+    max_debt s' = max_debt s /\ 0 <= borrow_of o s s' /\
+    (0 < borrow_of o s s' -> debt s' <= max_debt s).
+Proof.
+  intros s o Ho. destruct o; cbn [sstep is_inflow borrow_of] in *; try discriminate.
+  - destruct (consume_config classify s cost t allow_debt priority) as [(_ & _ & _ & Hmd & _) [_ How]].
+    destruct (consume_borrow classify s cost t allow_debt priority) as [E | (_ & H1 & H2 & H3 & _)]; lia.
+  - destruct s as [a g n ma mg mn d md tc m rn rd ac ow]; unf; brk; red_model; lia.
+  - destruct s as [a g n ma mg mn d md tc m rn rd ac ow]; unf; red_model; lia.
+  - destruct s as [a g n ma mg mn d md tc m rn rd ac ow]; unf; red_model; lia.
+  - destruct s as [a g n ma mg mn d md tc m rn rd ac ow]; unf; brk; red_model; lia.
+Qed.
+
+Definition borrow_on (i : nat) (o : op) (sys sys' : list store) : Z :=
+  match o with
+  | Local k (Consume _ _ _ _) => if Nat.eqb k i then debt_at i sys' - debt_at i sys else 0
+  | _ => 0
+  end.
+
+Lemma step_principal :
+  forall i sys o s, no_inflow i o -> nth_error sys i = Some s ->
+    exists s', nth_error (fst (step' sys o)) i = Some s' /\
+      let b := borrow_on i o sys (fst (step' sys o)) in
+      debt s' - owed s' = debt s - owed s + b /\ max_debt s' = max_debt s /\ 0 <= b /\
+      (0 < b -> debt s' <= max_debt s).
+Proof.
+  intros i sys o s Hin H. destruct o as [k lo | a b amount t].
+  - destruct (Nat.eq_dec k i) as [->|Hne].
+    + destruct (local_at sys i lo s H) as (Hn & _ & _).
+      exists (fst (sstep' s lo)). split; [exact Hn|].
+      assert (Hinf : is_inflow lo = false).
+      { destruct lo; cbn [no_inflow is_inflow] in *; try reflexivity; congruence. }
+      assert (borrow_on i (Local i lo) sys (fst (step' sys (Local i lo))) = borrow_of lo s (fst (sstep' s lo))) as ->.
+      { unfold borrow_on, borrow_of, debt_at. destruct lo; try reflexivity.
+        rewrite Nat.eqb_refl, Hn, H. reflexivity. }
+      apply sstep_principal. exact Hinf.
+    + exists s. split; [rewrite local_frame by congruence; exact H|].
+      assert (borrow_on i (Local k lo) sys (fst (step' sys (Local k lo))) = 0) as ->.
+      { unfold borrow_on. destruct lo; try reflexivity.
+        apply Nat.eqb_neq in Hne. rewrite Hne. reflexivity. }
+      cbv zeta. lia.
+  - cbn [no_inflow] in *.
+    assert (forall sys', borrow_on i (Transfer a b amount t) sys sys' = 0) as Hb by reflexivity.
+    rewrite Hb. cbn [step].
+    destruct (nth_error sys a) as [sa|] eqn:E; [|exists s; split; [exact H|cbv zeta; lia]].
+    pose proof (withdraw_spec sa amount t) as Hw.
+    destruct (withdraw sa amount t) as [sa' ok]. cbn [fst snd] in Hw.
+    destruct ok; [|exists s; split; [exact H|cbv zeta; lia]].
+    destruct Hw as [(_ & _ & _ & _ & _ & Hd & Hcfg & How) | (Hf & _)]; [|discriminate].
+    destruct (nth_error (upd sys a sa') b) as [d0|] eqn:Ej; [|exists s; split; [exact H|cbv zeta; lia]].
+    destruct (regenerate' d0 amount t) as [d1 r1]. cbn [fst].
+    rewrite nth_error_upd_other by congruence.
+    destruct (Nat.eq_dec a i) as [->|Hne].
+    + rewrite E in H. inversion H; subst sa.
+      exists sa'. split; [eapply nth_error_upd_same; eauto|].
+      destruct Hcfg as (_ & _ & _ & Hmd & _). cbv zeta. lia.
+    + exists s. split; [rewrite nth_error_upd_other by congruence; exact H|cbv zeta; lia].
+Qed.
+
+(* total principal borrowed without inflow: at most the debt room that is not interest *)
+Lemma borrowed_bounded :
+  interest_nonneg interest ->
+  forall i ops sys s,
+    Forall good sys -> Forall op_nonneg ops -> Forall (no_inflow i) ops ->
+    nth_error sys i = Some s ->
+    0 <= borrowed_on classify interest false i sys ops <= Z.max 0 (max_debt s - (debt s - owed s)).
+Proof.
+  intros Hi i. induction ops as [|o ops IH]; intros sys s Hg Ho Hin Hn; cbn [borrowed_on]; [lia|].
+  inversion Ho; subst. inversion Hin; subst.
+  destruct (step_principal i sys o s H3 Hn) as (s' & Hn' & Hp).
+  pose proof (step_good Hi sys o Hg H1) as Hg'.
+  fold (borrow_on i o sys (fst (step' sys o))) in Hp.
+  assert (Hfold : forall sys' r, step' sys o = (sys', r) ->
+            match o with
+            | Local k (Consume _ _ _ _) => if Nat.eqb k i then debt_at i sys' - debt_at i sys else 0
+            | _ => 0 end = borrow_on i o sys sys') by (intros; reflexivity).
+  destruct (step' sys o) as [sys' r] eqn:Es. cbn [fst snd] in *.
+  rewrite (Hfold sys' r eq_refl).
+  cbv zeta in Hp. destruct Hp as (Hpr & Hmd & Hb0 & Hlim).
+  specialize (IH sys' s' Hg' H2 H4 Hn').
+  pose proof (Forall_nth_error _ _ _ _ Hg' Hn') as Hgs'. unfold good, inv in Hgs'.
+  rewrite Hmd in IH. lia.
+Qed.
+
 (* ---------------------------------------------------------------------- *)
 (* no operation raises                                                      *)
 
@@ -635,6 +768,23 @@ Proof.
   pose proof (spend_bounded Hi i ops _ _ (init_all_good cfgs Hc) Ho Hin Hs) as H1.
   pose proof (paid_bounded Hi i ops _ _ (init_all_good cfgs Hc) Ho Hin Hs) as H2.
   unfold spendable, init_store in *. cbn in *. lia.
+Qed.
+
+Lemma borrowed_bounded_from_configs :
+  interest_nonneg interest ->
+  forall cfgs ops i b g n md rn rd,
+    Forall cfg_ok cfgs -> Forall op_nonneg ops -> Forall (no_inflow i) ops ->
+    nth_error cfgs i = Some (b, g, n, md, rn, rd) ->
+    0 <= borrowed_on classify interest false i (map init_store cfgs) ops <= md.
+Proof.
+  intros Hi cfgs ops i b g n md rn rd Hc Ho Hin Hn.
+  assert (Hs : nth_error (map init_store cfgs) i = Some (init_store (b, g, n, md, rn, rd)))
+    by (rewrite nth_error_map, Hn; reflexivity).
+  pose proof (borrowed_bounded Hi i ops _ _ (init_all_good cfgs Hc) Ho Hin Hs) as H1.
+  assert (Hok : cfg_ok (b, g, n, md, rn, rd))
+    by (rewrite Forall_forall in Hc; apply Hc; eapply nth_error_In; eauto).
+  unfold cfg_ok in Hok.
+  unfold init_store in *. cbn in *. lia.
 Qed.
 
 Lemma no_raise_all :
